@@ -29,6 +29,7 @@ import gambatools.notebook_dfa as nbd
 import gambatools.notebook_nfa2dfa as nbn
 import gambatools.notebook_cfg as nbc
 import gambatools.notebook_chomsky as nbch
+import gambatools.notebook_experimental as nbx
 from gambatools.regexp_simple_parser import parse_simple_regexp
 from gambatools.regexp_parser import parse_regexp
 
@@ -219,6 +220,87 @@ op('parse_printed_nfa', ['nfa'], lambda N: na.parse_nfa(na.print_nfa(N)), d_fa, 
 op('parse_printed_pda', ['pda'], lambda P: pa.parse_pda(pa.print_pda(P)), d_pda, out='pda')
 
 
+# ---- further public entry points (round 8): step functions, right-linear conversions, object-level checkers,
+# ---- dot / sigma / str printers (purity and exceptions only: their text lists set elements in iteration order)
+import gambatools.dfa_io as dio
+import gambatools.nfa_io as nio
+import gambatools.gnfa as gnfa_mod
+import gambatools.draw_sigma as dsig
+import gambatools.notebook_dfa as _nbd
+
+
+def _first_symbol(A):
+    return sorted(A.Sigma)[0] if A.Sigma else A.epsilon
+
+
+def _pda_start(P):
+    return pa.pda_epsilon_closure(P, [pa.PDAState(P.q0, [])])
+
+
+def _tm_step(T, w):
+    tape = list(w) + [T.blank]
+    q, head = ta.tm_do_transition(T, T.q0, tape, 0)
+    return [q, head, tape]
+
+
+def _gnfa_text(D):
+    G = ra.dfa_to_gnfa(D)
+    return gnfa_mod.print_gnfa(G)
+
+
+def _product_check(A, B):
+    D = da.dfa_union(A, B)
+    return _nbd.check_product_automaton(D, A, B, da.dfa_union(A, B))
+
+
+def _product_check_wrong(A, B):
+    D = da.dfa_union(A, B)
+    return _nbd.check_product_automaton(D, A, B, da.dfa_intersection(A, B))
+
+
+def _derivation_steps(G):
+    out = []
+    for r in G.R:
+        for mode in ('leftmost', 'rightmost', 'any'):
+            out.append(nbc.cfg_has_derivation(G, [G.S, G.S], list(r.alternative.symbols) + [G.S], mode))
+            out.append(nbc.cfg_has_derivation(G, [G.S, G.S], [G.S] + list(r.alternative.symbols), mode))
+    return out
+
+
+op('nfa_do_transition', ['nfa'], lambda N: na.nfa_do_transition(N, _first_symbol(N), na.epsilon_closure(N, N.q0)), d_value)
+op('pda_epsilon_closure_start', ['pda'], _pda_start, d_value)
+op('pda_do_transition', ['pda'], lambda P: pa.pda_do_transition(P, _first_symbol(P), _pda_start(P)), d_value)
+op('tm_do_transition', ['tm'], _tm_step, d_value, params=('w',))
+op('cfg_is_simple', ['cfg'], ca.cfg_is_simple, d_value)
+op('cfg_to_nfa', ['cfg'], ca.cfg_to_nfa, d_fa, out='nfa')
+op('cfg_to_dfa', ['cfg'], lambda G: ca.cfg_to_dfa(G, False), d_none)
+op('cfg_derivable_variables', ['cfg'], lambda G: ca.cfg_derivable_variables(G, G.S), d_value)
+op('cfg_has_derivation', ['cfg'], _derivation_steps, d_value)
+op('cfg_print_cyk_matrix', ['cfg'], lambda G, w: ca.cfg_print_cyk_matrix(ca.cfg_cyk_matrix(G, w), len(w)) if w else None, d_none, params=('w',), pre=lambda G: G.is_chomsky())
+op('check_cfg_has_start_variable', ['cfg'], lambda G: nbch.check_cfg_has_start_variable(G, G.S), d_feedback)
+op('check_cfg_has_no_epsilon_rules', ['cfg'], nbch.check_cfg_has_no_epsilon_rules, d_feedback)
+op('check_cfg_has_no_unit_productions', ['cfg'], nbch.check_cfg_has_no_unit_productions, d_feedback)
+op('check_cfg_has_rhs_at_most_two', ['cfg'], nbch.check_cfg_has_right_hand_sides_of_length_at_most_two, d_feedback)
+op('check_cfg_is_chomsky', ['cfg'], nbch.check_cfg_is_chomsky, d_feedback)
+op('regexp_size', ['regexp'], ra.regexp_size, d_value)
+op('regexp_symbols', ['regexp'], lambda r: sorted({str(x) for x in ra.regexp_symbols(r)}), d_value)    # Symbol objects hash by identity: the strings are the value
+op('print_gnfa_of_dfa', ['dfa'], _gnfa_text, d_none)
+op('check_product_automaton', ['dfa', 'dfa'], _product_check, d_feedback)
+op('check_product_automaton_wrong', ['dfa', 'dfa'], _product_check_wrong, d_feedback)
+op('check_max_states', ['dfa'], lambda D, n: nb.check_max_states(D, n), d_feedback, params=('n',))
+op('dfa_to_dot', ['dfa'], dio.dfa_to_dot, d_none)
+op('nfa_to_dot', ['nfa'], nio.nfa_to_dot, d_none)
+op('dfa_to_sigma', ['dfa'], lambda D: dsig.dfa_to_sigma(D), d_none)
+op('nfa_to_sigma', ['nfa'], lambda N: dsig.nfa_to_sigma(N), d_none)
+op('pda_to_sigma', ['pda'], lambda P: dsig.pda_to_sigma(P), d_none)
+op('tm_to_sigma', ['tm'], lambda T: dsig.tm_to_sigma(T), d_none)
+for _k in ('nfa', 'pda', 'tm', 'cfg', 'regexp'):
+    op('str_' + _k, [_k], lambda X: str(X), d_none)
+op('words_up_to_n_sigma', ['dfa'], lambda D, n: la.words_up_to_n(D.Sigma, min(n, 3)), d_value, params=('n',))
+op('compare_languages_words', ['words', 'words'], lg.compare_languages, d_feedback)
+op('language_set_operations', ['words', 'words'], lambda A, B: [sorted(la.union(A, B)), sorted(la.intersection(A, B)), sorted(la.symmetric_difference(A, B))], d_value)
+
+
 def _incomplete_answer(N):
     D = na.nfa_to_dfa(N)
     A = _as_nfa(D)
@@ -289,7 +371,38 @@ TEXT_CHECKS = {
     'check_cfg_derivation': lambda t: nbc.check_cfg_derivation(t['cfg'], t['answer'], t['word'], 'leftmost'),
     'check_dfa_syntax': lambda t: nb.check_dfa_syntax(t['dfa']),
     'check_nfa_syntax': lambda t: nb.check_nfa_syntax(t['nfa']),
+    # round 8: the remaining text-level entry points of the notebooks
+    'check_pda_language_from_words': lambda t: nb.check_pda_language_from_words(t['pda'], t['words'], 2, t['max_states']),
+    'check_tm_language_from_words': lambda t: nb.check_tm_language_from_words(t['tm'], t['words'], 2, t['max_states']),
+    'check_cfg_language_from_words': lambda t: nb.check_cfg_language_from_words(t['cfg'], t['words'], 3),
+    'check_regexp_language_from_words': lambda t: nb.check_regexp_language_from_words(t['regexp'], t['words'], 3),
+    'check_dfa_accepts_rejects': lambda t: nb.check_dfa_accepts_rejects(t['dfa'], t['acc'], t['rej']),
+    'check_cfg_accepts': lambda t: nbx.check_cfg_accepts(t['cfg'], t['acc']),
+    'check_cfg_rejects': lambda t: nbx.check_cfg_rejects(t['cfg'], t['rej']),
+    'check_number_of_nfa_states': lambda t: nb.check_number_of_nfa_states(t['nfa'], t['count']),
+    'check_pda_syntax': lambda t: nb.check_pda_syntax(t['pda']),
+    'check_tm_syntax': lambda t: nb.check_tm_syntax(t['tm']),
+    'dfa_language': lambda t: nb.dfa_language(t['dfa'], t['n']),
+    'nfa_language': lambda t: nb.nfa_language(t['nfa'], t['n']),
+    'pda_language': lambda t: nb.pda_language(t['pda'], min(t['n'], 2)),
+    'tm_language': lambda t: nb.tm_language(t['tm'], min(t['n'], 2)),
+    'cfg_language': lambda t: nb.cfg_language(t['cfg'], min(t['n'], 3)),
+    'regexp_language': lambda t: nb.regexp_language(t['regexp'], min(t['n'], 3)),
+    'nfa_accepts': lambda t: nb.nfa_accepts(t['nfa'], t['word']),
+    'regexp_accepts': lambda t: nb.regexp_accepts(t['regexp'], t['word']),
 }
+# entry points that RETURN their answer (a printed word list, a bool): the value itself is the outcome
+TEXT_VALUES = {'dfa_language', 'nfa_language', 'pda_language', 'tm_language', 'cfg_language', 'regexp_language', 'nfa_accepts', 'regexp_accepts'}
+
+
+def _text_digest(name, st, val, ctx):
+    if st == 'timeout':
+        return 'timeout'
+    if st != 'ok':
+        return 'exc:' + val.split(':')[0]
+    if name in TEXT_VALUES:
+        return 'val:' + hx([_plain(val), ctx['stdout'].strip().startswith('Error')])
+    return d_verdict(None, ctx)
 
 
 # ------------------------------------------------------------------ text rendering (harness side, from specs)
@@ -321,6 +434,42 @@ def render_cfg(s):
         order.remove(s['S'])
         order.insert(0, s['S'])
     return '\n'.join('%s -> %s' % (A, ' | '.join(by[A])) for A in order)
+
+
+def render_pda(s):
+    lines = ['states ' + ' '.join(s['Q']), 'initial ' + s['q0'], 'final ' + ' '.join(s['F']), 'input_symbols ' + ' '.join(s['Sigma']),
+             'stack_symbols ' + ' '.join(s['Gamma']), 'epsilon ' + s['eps']]
+    for p, a, u, T in s['delta']:
+        for q, v in T:
+            lines.append('%s %s %s,%s%s' % (p, q, a, u, v))
+    return '\n'.join(lines)
+
+
+def render_tm(s):
+    lines = ['states ' + ' '.join(s['Q']), 'initial ' + s['q0'], 'accept ' + s['acc'], 'reject ' + s['rej'], 'input_symbols ' + ' '.join(s['Sigma']),
+             'tape_symbols ' + ' '.join(s['Gamma']), 'blank ' + s['blank']]
+    for p, a, q, b, d in s['delta']:
+        lines.append('%s %s %s%s,%s' % (p, q, a, b, d))
+    return '\n'.join(lines)
+
+
+def _tm_lang(s, n, budget=1000):
+    """Words of length <= n a machine spec accepts within the budget (used only to build answers that are mostly right)."""
+    d = {(p, a): (q, b, m) for p, a, q, b, m in s['delta']}
+    out = []
+    for w in fa.words_upto(sorted(s['Sigma']), n):
+        tape, q, h = list(w) + [s['blank']], s['q0'], 0
+        for _ in range(budget):
+            if q in (s['acc'], s['rej']):
+                break
+            q, b, m = d.get((q, tape[h]), (s['rej'], tape[h], 'R'))
+            tape[h] = b
+            h = max(h - 1, 0) if m == 'L' else h + 1
+            if h == len(tape):
+                tape.append(s['blank'])
+        if q == s['acc']:
+            out.append(w)
+    return out
 
 
 def render_rx(t):
@@ -403,6 +552,8 @@ def _text_check(rng, made, sigma):
     name = rng.choice(sorted(TEXT_CHECKS))
     wrong = rng.random() < 0.4
     t = {}
+    if name in NEW_TEXT_CHECKS:
+        return _text_check_more(rng, made, sigma, name, wrong, dfas, nfas, cfgs)
     if name in ('check_dfa_minimal', 'check_dfa_complement', 'check_dfa_reverse', 'check_dfa_language_from_words', 'check_dfa2regexp', 'check_dfa_syntax'):
         if not dfas:
             return None
@@ -509,6 +660,94 @@ def _text_check(rng, made, sigma):
                 acc, rej = rej, acc
             t['acc'] = ' '.join(w or 'ε' for w in acc) or 'ε'
             t['rej'] = ' '.join(w or 'ε' for w in rej) or 'zzz'
+    return {'op': 'text_check', 'name': name, 'texts': t}
+
+
+NEW_TEXT_CHECKS = {'check_pda_language_from_words', 'check_tm_language_from_words', 'check_cfg_language_from_words', 'check_regexp_language_from_words',
+                   'check_dfa_accepts_rejects', 'check_cfg_accepts', 'check_cfg_rejects', 'check_number_of_nfa_states', 'check_pda_syntax', 'check_tm_syntax',
+                   'dfa_language', 'nfa_language', 'pda_language', 'tm_language', 'cfg_language', 'regexp_language', 'nfa_accepts', 'regexp_accepts'}
+
+
+def _wordlist(L, wrong, rng):
+    L = sorted(L)
+    if wrong and L:
+        del L[rng.randrange(len(L))]
+    elif wrong:
+        L = ['zz']
+    return ' '.join(w or rng.choice(['ε', '_']) for w in L)
+
+
+def _text_check_more(rng, made, sigma, name, wrong, dfas, nfas, cfgs):
+    t = {'n': rng.randint(0, 4), 'max_states': rng.choice([0, 0, 2, 9])}
+    pdas = [m for m in made if m['kind'] == 'pda' and len(m['eps']) == 1 and all(len(x) == 1 for x in m['Gamma'] + m['Sigma']) and len(m['Q']) <= 8
+            and all(q.isalnum() for q in m['Q'])]
+    tms = [m for m in made if m['kind'] == 'tm' and all(q.isalnum() for q in m['Q'])]
+    rxs = [m for m in made if m['kind'] == 'regexp' and rrx.size(m['tree']) <= 30]
+    if 'pda' in name:
+        if not pdas:
+            return None
+        P = rng.choice(pdas)
+        t['pda'] = render_pda(P)
+        if name == 'check_pda_syntax' and wrong:
+            t['pda'] = t['pda'].replace('initial ', 'initial zz', 1)
+        if name == 'check_pda_language_from_words':
+            try:
+                L = [w for w in fa.words_upto(sorted(P['Sigma']), 2) if rpda.accepts(P, w)]
+            except Exception:
+                L = []
+            t['words'] = _wordlist(L, wrong, rng)
+    elif 'tm' in name:
+        if not tms:
+            return None
+        T = rng.choice(tms)
+        t['tm'] = render_tm(T)
+        if name == 'check_tm_syntax' and wrong:
+            t['tm'] = t['tm'].replace('accept ', 'accept zz', 1)
+        if name == 'check_tm_language_from_words':
+            t['words'] = _wordlist(_tm_lang(T, 2), wrong, rng)
+    elif 'regexp' in name:
+        if not rxs:
+            return None
+        R = rng.choice(rxs)
+        t['regexp'] = render_rx(R['tree'])
+        t['word'] = _words(rng, sigma)
+        if name == 'check_regexp_language_from_words':
+            L = [w for w in fa.words_upto(sorted(sigma), 3) if rrx.matches(R['tree'], w)]
+            t['words'] = _wordlist(L, wrong, rng)
+    elif 'cfg' in name:
+        if not cfgs:
+            return None
+        G = rng.choice(cfgs)
+        t['cfg'] = render_cfg(G)
+        L = sorted(rcfg.lang_upto(G, 3))
+        if name == 'check_cfg_language_from_words':
+            t['words'] = _wordlist(L, wrong, rng)
+        else:
+            rej = [w for w in fa.words_upto(sorted(G['Sigma']), 3) if w not in set(L)]
+            acc, rej = L[:3], rej[:3]
+            if wrong:
+                acc, rej = acc + rej[:1], rej + L[:1]
+            t['acc'] = ' '.join(w or 'ε' for w in acc) or 'ε'
+            t['rej'] = ' '.join(w or 'ε' for w in rej) or 'zzz'
+    elif 'nfa' in name:
+        if not nfas:
+            return None
+        N = rng.choice(nfas)
+        t['nfa'] = render_nfa(N)
+        t['word'] = _words(rng, sigma)
+        t['count'] = len(N['Q']) + (1 if wrong else 0)
+    else:
+        if not dfas:
+            return None
+        D = rng.choice(dfas)
+        t['dfa'] = render_dfa(D)
+        L = sorted(fa.lang_upto(D, 3))
+        rej = [w for w in fa.words_upto(sorted(D['Sigma']), 3) if w not in set(L)]
+        acc, rej = L[:3], rej[:3]
+        if wrong:
+            acc, rej = acc + rej[:1], rej + L[:1]
+        t['acc'] = ' '.join(w or 'ε' for w in acc) or 'ε'
+        t['rej'] = ' '.join(w or 'ε' for w in rej) or 'zzz'
     return {'op': 'text_check', 'name': name, 'texts': t}
 
 
@@ -759,7 +998,7 @@ def run_case(case, env):
             finally:
                 sys.stdout = old
             ctx['stdout'] = buf.getvalue()
-            d = d_verdict(None, ctx) if st == 'ok' else ('timeout' if st == 'timeout' else 'exc:' + val.split(':')[0])
+            d = _text_digest(step['name'], st, val, ctx)
             site = step['name']
             if _ambient() != [1000, bool(case.get('logging'))]:
                 out['viol'].append(viol('ambient-setting-changed', site, {'step': idx, 'after': _ambient()}))
@@ -873,7 +1112,7 @@ def run_solo(case, env):
         finally:
             sys.stdout = old
         ctx['stdout'] = buf.getvalue()
-        d = d_verdict(None, ctx) if st == 'ok' else ('timeout' if st == 'timeout' else 'exc:' + val.split(':')[0])
+        d = _text_digest(case['name'], st, val, ctx)
         return {'digest': d, 'ticks': ticks, 'viol': [], 'evals': 1}
     o = OPS[case['op']]
     try:
